@@ -178,23 +178,46 @@ Section StatSig.
       rewrite esig_adds_app. reflexivity.
   Qed.
 
+  Lemma local_eval_sig : forall es names locs s s1 rs,
+      local_eval ce names locs es s = Ok (s1, rs) ->
+      esig (env s1) = esig (env s) /\ rs_match (fun e r => ofn_loc (fst r) e) names locs es rs.
+  Proof.
+    induction es as [|e es IH]; intros names locs s s1 rs H.
+    - cbn [local_eval] in H. injection H as <- <-. split; reflexivity.
+    - cbn [local_eval] in H. inv_bind H. destruct a as [[s2 ofn] sub]. apply Hce in Hb. destruct Hb as [Hb Hofn].
+      destruct names as [|nm names]; [injection H as <- <-; split; [exact Hb|reflexivity]|].
+      destruct locs as [|l locs]; [injection H as <- <-; split; [exact Hb|reflexivity]|].
+      inv_bind H. destruct a as [s3 rs0]. injection H as <- <-.
+      destruct (IH _ _ _ _ _ Hb0) as [E Hrs]. split; [congruence|].
+      cbn [rs_match]. exists (ofn, sub), rs0. repeat split; auto.
+  Qed.
+
+  Lemma local_adds_sig : forall es names locs rs s s' rn rl flag,
+      rs_match (fun e r => ofn_loc (fst r) e) names locs es rs ->
+      local_adds names locs es rs s = (s', rn, rl, flag) ->
+      esig_adds (local_sigs rn rl []) (esig (env s')) = esig_adds (local_sigs names locs es) (esig (env s)).
+  Proof.
+    induction es as [|e es IH]; intros names locs rs s s' rn rl flag Hrs H.
+    - cbn [local_adds] in H. injection H as <- <- <- <-. destruct names; reflexivity.
+    - cbn [local_adds rs_match] in H, Hrs.
+      destruct names as [|nm names]; [subst rs; injection H as <- <- <- <-; cbn [local_sigs]; reflexivity|].
+      destruct locs as [|l locs]; [subst rs; injection H as <- <- <- <-; cbn [local_sigs]; reflexivity|].
+      destruct Hrs as [[ofn sub] [rs' [-> [Hofn Hrs']]]]. cbn [fst] in Hofn.
+      destruct (local_adds names locs es rs' _) as [[[s3 rn0] rl0] flag0] eqn:E.
+      injection H as <- <- <- <-.
+      rewrite (IH _ _ _ _ _ _ _ _ Hrs' E), esig_add_loc_var. cbn [local_sigs tl].
+      match goal with |- _ = esig_adds (?x :: ?r) _ => change (x :: r) with ([x] ++ r) end.
+      rewrite esig_adds_app. unfold vsig_of. cbn [v_loc v_param v_func].
+      unfold ofn_loc in Hofn. destruct (is_func e); [rewrite Hofn|]; reflexivity.
+  Qed.
+
   Lemma local_loop_sig : forall es names locs s s' rn rl flag,
       local_loop ce names locs es s = Ok (s', rn, rl, flag) ->
       esig_adds (local_sigs rn rl []) (esig (env s')) = esig_adds (local_sigs names locs es) (esig (env s)).
   Proof.
-    induction es as [|e es IH]; intros names locs s s' rn rl flag H.
-    - destruct names; cbn [local_loop] in H; injection H as <- <- <- <-; reflexivity.
-    - destruct names as [|nm names]; cbn [local_loop] in H.
-      + inv_bind H. destruct a as [[s1 ofn] sub]. apply Hce in Hb. destruct Hb as [Hb _].
-        injection H as <- <- <- <-. cbn [local_sigs]. rewrite !esig_adds_nil. exact Hb.
-      + inv_bind H. destruct a as [[s1 ofn] sub]. apply Hce in Hb. destruct Hb as [Hb Hofn].
-        destruct locs as [|l locs].
-        * injection H as <- <- <- <-. cbn [local_sigs]. rewrite !esig_adds_nil. exact Hb.
-        * inv_bind H. destruct a as [[[s3 rn0] rl0] flag0]. injection H as <- <- <- <-.
-          apply IH in Hb0. rewrite Hb0, esig_add_loc_var, Hb. cbn [local_sigs tl].
-          match goal with |- _ = esig_adds (?x :: ?r) _ => change (x :: r) with ([x] ++ r) end.
-          rewrite esig_adds_app. unfold vsig_of. cbn [v_loc v_param v_func].
-          unfold ofn_loc in Hofn. destruct (is_func e); [rewrite Hofn|]; reflexivity.
+    intros es names locs s s' rn rl flag H. unfold local_loop in H. inv_bind H. destruct a as [s1 rs].
+    injection H as H. destruct (local_eval_sig _ _ _ _ _ _ Hb) as [E Hrs].
+    rewrite (local_adds_sig _ _ _ _ _ _ _ _ _ Hrs H), E. reflexivity.
   Qed.
 
   Lemma cg_local_sig : forall names locs es s s',
